@@ -29,9 +29,9 @@ def runs_for(pid, tier, seed):
     if pid == 'C01':
         some = none + [(fm.C('maxsize'),), (fm.C('gen'),), (fm.C('mincost', 1, 1),), (fm.C('maxsize'), fm.C('lsb'))]
         runs = [
-            R('s2core/IP', fm.s2core(CritLists=none, CheckIP=True, ReportCap=64, Stabs={False} if q else {False, True}), simulate=12000 if q else None),
+            R('s2core/IP', fm.s2core(CritLists=none, CheckIP=True, ReportCap=64, Stabs={False} if q else {False, True}), simulate=8000 if q else None),
             R('zerocap', fm.zerocap(CritLists=none, ReportCap=64, Stabs={False} if q else {False, True})),
-            R('hr2', fm.hr2(CritLists=none, ReportCap=64, CheckIP=True, Stabs={False} if q else {False, True})),
+            R('hr2', fm.hr2(CritLists=none, ReportCap=64, CheckIP=True, Stabs={False} if q else {False, True}), simulate=8000 if q else None),
             R('wide3x3x2', fm.wide(ReportCap=4, **fm.build(0, 4)), simulate=3000 if q else 40000),
             R('wide-hr3x3', fm.wide(na=2, CritLists=some, ReportCap=4), simulate=1500 if q else 20000),
             R('11 projects, ties', fm.twodigit_projects(TieMode='all', CritLists=none + [(fm.C('maxsize'),)], ReportCap=2, PCs={False, True}),
